@@ -21,8 +21,8 @@ EXTENDS Naturals, Sequences, TLC
 
 FileModes == {"none", "name", "path"}
 ZoneModes == {"none", "utc", "local", "plus0530", "minus0800"}
-Formats == {"default", "iso", "time6"}
-PSeps == {"colon", "bar", "spaced"}
+Formats == {"default", "iso", "time6", "verbose"}      \* "verbose": a field of more than 40 bytes (names of day and month, microseconds, zone)
+PSeps == {"colon", "bar", "spaced", "wide"}                \* "wide": a separator of several multi-byte characters
 Seps == {"empty", "nl", "dashes", "tab"}
 Colors == {"never", "always"}
 Kinds == {"text", "record", "event", "entry"}
